@@ -57,6 +57,10 @@ pub struct ChainParams {
     /// 3 runs of several epochs in one direction
     #[serde(default)]
     pub trend: u64,
+    /// a new branch re-commits the transactions of the blocks it abandons (they return to the
+    /// miners' pool), in the same order but at other heights / indexes
+    #[serde(default)]
+    pub recommit: bool,
 }
 
 impl Default for ChainParams {
@@ -72,6 +76,7 @@ impl Default for ChainParams {
             n_types: 2,
             ext_extra_pct: 20,
             trend: 0,
+            recommit: false,
         }
     }
 }
@@ -125,6 +130,10 @@ pub struct Branch {
     rng: Rng,
     /// a forged block was mined on this branch: no honest difficulty adjustment after it
     pub forged: bool,
+    /// transactions of the abandoned blocks of the source branch, still to be re-committed
+    pub orphans: Vec<TransactionView>,
+    /// blocks to mine before the first of them is taken up again
+    pub orphan_wait: u64,
 }
 
 pub struct World {
@@ -179,6 +188,27 @@ fn other_script(code: u8, args: &[u8]) -> Script {
 fn real_difficulty(d: u64) -> (u32, U256) {
     let compact = difficulty_to_compact(U256::from(d.max(2)));
     (compact, compact_to_difficulty(compact))
+}
+
+pub fn mine_header(pow: PowKind, header: packed::Header) -> packed::Header {
+    match pow {
+        PowKind::Dummy => header,
+        PowKind::Eaglesong => {
+            let pow_hash = header.as_reader().calc_pow_hash();
+            let (target, _) = compact_to_target(header.raw().compact_target().unpack());
+            let mut nonce: u128 = 0;
+            loop {
+                let input = ckb_pow::pow_message(&pow_hash, nonce);
+                let mut output = [0u8; 32];
+                eaglesong::eaglesong(&input, &mut output);
+                if U256::from_big_endian(&output[..]).expect("32 bytes") <= target {
+                    break;
+                }
+                nonce += 1;
+            }
+            header.as_builder().nonce(nonce.pack()).build()
+        }
+    }
 }
 
 fn mine(pow: PowKind, block: BlockView) -> BlockView {
@@ -334,6 +364,8 @@ impl World {
             live,
             rng: rng.fork(0xb0),
             forged: false,
+            orphans: Vec::new(),
+            orphan_wait: 0,
         };
         World {
             params,
@@ -481,6 +513,13 @@ impl World {
                 }
             }
         }
+        let mut orphans: Vec<TransactionView> = Vec::new();
+        if self.params.recommit {
+            for id in self.branches[src].ids[(at as usize + 1)..].iter() {
+                orphans.extend(self.blocks[*id].view.transactions().into_iter().filter(|tx| !tx.is_cellbase()));
+            }
+            orphans.extend(self.branches[src].orphans.iter().cloned());
+        }
         let rng = Rng::new(crate::entropy::mix(&[self.params.seed, 0xf0, tag, at]));
         self.branches.push(Branch {
             ids,
@@ -489,6 +528,8 @@ impl World {
             live,
             rng,
             forged: false,
+            orphan_wait: if self.params.recommit { crate::entropy::mix(&[self.params.seed, 0xf1, tag, at]) % 3 } else { 0 },
+            orphans,
         });
         self.branches.len() - 1
     }
@@ -630,6 +671,47 @@ impl World {
         let mut pool: Vec<LiveCell> = self.branches[branch].live.clone();
         let mut spent: Vec<OutPoint> = Vec::new();
         let mut created: Vec<LiveCell> = Vec::new();
+        // transactions of abandoned blocks come back, in order, as far as their inputs exist here
+        if self.branches[branch].orphan_wait > 0 {
+            self.branches[branch].orphan_wait -= 1;
+        } else if !self.branches[branch].orphans.is_empty() && !rng.chance(1, 3) {
+            let take = rng.range(1, 3) as usize;
+            let mut rest: Vec<TransactionView> = Vec::new();
+            let orphans = std::mem::take(&mut self.branches[branch].orphans);
+            let mut taken = 0;
+            for tx in orphans {
+                let ins: Vec<OutPoint> = tx.input_pts_iter().collect();
+                let ok = taken < take && ins.iter().all(|op| pool.iter().any(|c| c.out_point == *op));
+                if !ok {
+                    rest.push(tx);
+                    continue;
+                }
+                taken += 1;
+                pool.retain(|c| !ins.contains(&c.out_point));
+                spent.extend(ins);
+                let ti = block_txs.len() as u32;
+                for (oi, out) in tx.outputs().into_iter().enumerate() {
+                    let lc = LiveCell {
+                        out_point: OutPoint::new(tx.hash(), oi as u32),
+                        output: out,
+                        data: tx.outputs_data().get(oi).unwrap().raw_data(),
+                        number,
+                        tx_index: ti,
+                    };
+                    pool.push(lc.clone());
+                    created.push(lc);
+                }
+                block_txs.push(tx);
+            }
+            // what can never be re-committed (an input was spent otherwise) stays out for good
+            self.branches[branch].orphans = rest;
+        }
+        if !self.branches[branch].orphans.is_empty() {
+            // fresh transactions leave the cells alone that the waiting ones are going to spend
+            let reserved: Vec<OutPoint> =
+                self.branches[branch].orphans.iter().flat_map(|tx| tx.input_pts_iter()).collect();
+            pool.retain(|c| !reserved.contains(&c.out_point));
+        }
         for _ in 0..ntx {
             if pool.is_empty() {
                 break;
